@@ -38,6 +38,29 @@ func (m *C07) OnStep(_ explore.Ghost, st *explore.Step) []V {
 	if st.Act.Kind != explore.ActMsg {
 		return nil
 	}
+	// what a buyer settles against is the order as it was offered: Sell / UpdateSellOrders must store
+	// the quantity, price, denomination and auto-retire flag of the seller's message
+	if st.Res.OK {
+		var ids []uint64
+		switch msg := st.Res.Msg.(type) {
+		case *markettypes.MsgSell:
+			if r, ok := st.Res.Resp.(*markettypes.MsgSellResponse); ok {
+				ids = r.SellOrderIds
+			}
+		case *markettypes.MsgUpdateSellOrders:
+			for _, u := range msg.Updates {
+				ids = append(ids, u.SellOrderId)
+			}
+		}
+		if ids != nil {
+			var out []V
+			for _, d := range ordersAsRequested(st, ids) {
+				out = append(out, V{Kind: "C07/order-differs-from-what-was-offered", Detail: d})
+			}
+			m.inc("offers_compared_with_request")
+			return out
+		}
+	}
 	bd, ok := st.Res.Msg.(*markettypes.MsgBuyDirect)
 	if !ok {
 		return nil
